@@ -23,7 +23,8 @@ def build():
     C.cls("Template", fields={})
     C.ext("Template.evaluate", model=lambda I, env, a, k: I.read_field(env["self"].ref, "value"),
           trusted_reason="a validated template_int evaluates to an int, constant during a call (A-CONFIG)")
-    C.cls("ModeDevice", fields={})
+    C.cls("ModeDevice", file="mpf/core/mode_device.py", fields={})
+    C.fn("ModeDevice.device_removed_from_mode", inline=True, no_inv=True)
     C.ext("ModeDevice.enable", model=common.noop, trusted_reason="mpf/core/mode_device.py ModeDevice.enable is empty")
     C.cls("LogicBlock", file=LB, bases=["ModeDevice"], check_bases=True)
 
@@ -112,6 +113,12 @@ def build():
         for h in ("post_update_event", "_post_hit_events", "_logic_block_timer_start"):
             C.fn("%s.%s" % (cls, h), qualname=q + h, inline=True, no_inv=True)
         C.fn("%s.get_start_value" % cls, inline=True, no_inv=True)
+        C.fn("%s.device_removed_from_mode" % cls, qualname=q + "device_removed_from_mode", params=dict(mode=Opaque("Mode")),
+             ensures=[("RM1: when its mode stops the block drops its per-player state - and leaves its own timers alone (a "
+                       "counter inside its hit window must still be released by the window delay: the class invariant "
+                       "'hits are ignored only while the delay that ends it is pending' holds afterwards)",
+                       "self._state is None and self.mode is None")],
+             modifies=["self._state", "self.mode"], raises={})
         SV = "self._state.value"
         same_val = "%s == old(%s)" % (SV, SV)
 
